@@ -51,7 +51,9 @@ NewEv(kind, st, ok, val, def, cbs, pr, kids, all) ==
 (* harness replaces every instant by its rank among all float sums occurring in the run (order and equality of floats  *)
 (* are all the kernel uses) and supplies ftab.plus[rank of t + 1][delay index] = rank of the float sum t + d and       *)
 (* ftab.unt[i] = rank of the i-th until instant; delay index 0 means "this instant".                                   *)
-IntTimes == [on |-> FALSE, plus |-> <<>>, unt |-> <<>>]
+IntTimes == [on |-> FALSE, plus |-> <<>>, unt |-> <<>>, neg |-> <<>>]
+\* a delay is refused (ValueError) when it is negative: a negative number, or a delay index flagged negative
+NegDelay(d) == IF ftab.on THEN ftab.neg[d] = 1 ELSE d < 0
 Add(t, d) == IF ftab.on THEN (IF d = 0 THEN t ELSE ftab.plus[t + 1][d]) ELSE t + d
 UntilAt(a) == IF ftab.on THEN ftab.unt[a] ELSE a
 Entry(e, prio, d, k) == [t |-> Add(now, d), prio |-> prio, k |-> k, e |-> e]
@@ -390,15 +392,18 @@ Do(o) ==
   /\ (o.k \notin TopOnly => top' = IF P = 0 THEN [top EXCEPT !.n = @ + 1] ELSE top)
   /\ CASE o.k = "timeout" ->                       \* env.timeout(d, value) + probe; not yielded
             LET e == Len(evs) + 1 IN
-            /\ o.a >= 0
-            /\ evs' = Append(evs, NewEv("to", "triggered", TRUE, Val("v", e, <<>>), FALSE, <<Cb("probe", e)>>, 0, <<>>, FALSE))
-            /\ agenda' = agenda \cup {Entry(e, NRM, o.a, seq)} /\ seq' = seq + 1
-            /\ procs' = Bump(procs) /\ UNCHANGED <<run, log>>
+            IF NegDelay(o.a)
+            THEN /\ log' = Refused("ValueError") /\ procs' = Bump(procs) /\ UNCHANGED <<agenda, seq, evs, run>>
+            ELSE /\ evs' = Append(evs, NewEv("to", "triggered", TRUE, Val("v", e, <<>>), FALSE, <<Cb("probe", e)>>, 0, <<>>, FALSE))
+                 /\ agenda' = agenda \cup {Entry(e, NRM, o.a, seq)} /\ seq' = seq + 1
+                 /\ procs' = Bump(procs) /\ UNCHANGED <<run, log>>
        [] o.k = "sleep" ->                         \* yield env.timeout(d, value)
             LET e == Len(evs) + 1
                 E1 == Append(evs, NewEv("to", "triggered", TRUE, Val("v", e, <<>>), FALSE, <<Cb("probe", e)>>, 0, <<>>, FALSE))
-            IN /\ P # 0 /\ o.a >= 0
-               /\ YieldOn(e, o.c, E1, Bump(procs), agenda \cup {Entry(e, NRM, o.a, seq)}, seq + 1, log)
+            IN /\ P # 0
+               /\ IF NegDelay(o.a)
+                  THEN /\ log' = Refused("ValueError") /\ procs' = Bump(procs) /\ UNCHANGED <<agenda, seq, evs, run>>
+                  ELSE YieldOn(e, o.c, E1, Bump(procs), agenda \cup {Entry(e, NRM, o.a, seq)}, seq + 1, log)
        [] o.k = "baddelay" ->                      \* env.timeout(-1): ValueError, nothing created
             /\ log' = Refused("ValueError") /\ procs' = Bump(procs)
             /\ UNCHANGED <<agenda, seq, evs, run>>
